@@ -16,7 +16,7 @@ func showData(b []byte) string {
 }
 
 func init() {
-	ops["ariter"] = func(a []string) string {
+	iter := func(a []string, mode string) string {
 		buf := []byte(arg(a, 0))
 		ar, err := deb.LoadAr(bytes.NewReader(buf))
 		if err != nil {
@@ -45,15 +45,36 @@ func init() {
 			if steps > len(buf)/60+2 {
 				return "timeout"
 			}
-			data, rerr := ioutil.ReadAll(e.Data)
-			first := showData(data)
-			if rerr != nil {
-				first = "read-error"
+			first := ""
+			switch mode {
+			case "skip":
+				// the consumer ignores the member: the iterator must not depend on the data having been read
+			case "one":
+				e.Data.Read(make([]byte, 1))
+			default:
+				data, rerr := ioutil.ReadAll(e.Data)
+				first = showData(data)
+				if rerr != nil {
+					first = "read-error"
+				}
 			}
 			all = append(all, seen{e, first})
 		}
 		items := []string{}
-		for _, s := range all {
+		for k, s := range all {
+			if mode != "" {
+				// lazy consumers read every member, from its start, only now
+				first := "seek-error"
+				if _, err := s.e.Data.Seek(0, io.SeekStart); err == nil {
+					if data, err := ioutil.ReadAll(s.e.Data); err == nil {
+						first = showData(data)
+					} else {
+						first = "read-error"
+					}
+				}
+				all[k].first = first
+				s.first = first
+			}
 			// re-read after the iterator has reached the end
 			re := "seek-error"
 			if _, err := s.e.Data.Seek(0, io.SeekStart); err == nil {
@@ -68,4 +89,8 @@ func init() {
 		}
 		return showList(items) + " " + end
 	}
+	ops["ariter"] = func(a []string) string { return iter(a, "") }
+	// ariterlazy buf mode: the same archive walked by a consumer that does not read (skip) or hardly reads (one)
+	// the members while iterating; everything it later reads must be what the eager consumer saw
+	ops["ariterlazy"] = func(a []string) string { return iter(a[:1], arg(a, 1)) }
 }
